@@ -17,18 +17,18 @@ type phiSel struct {
 }
 
 type Env struct {
-	fe      *FuncEnc
-	fr      *Frame // nil in callee/global mode
-	st      *State
-	old     *State
-	vars    map[string]Term
-	phiEdge *phiSel
-	loopHdr *ssa.BasicBlock
-	pkg     *types.Package
-	at      *ssa.BasicBlock // evaluation point (for local-name resolution), may be nil
+	fe         *FuncEnc
+	fr         *Frame // nil in callee/global mode
+	st         *State
+	old        *State
+	vars       map[string]Term
+	phiEdge    *phiSel
+	loopHdr    *ssa.BasicBlock
+	pkg        *types.Package
+	at         *ssa.BasicBlock // evaluation point (for local-name resolution), may be nil
 	calleeMode bool
-	curCall *CallSite // sink evaluation: the call site the assertion is attached to
-	curName string
+	curCall    *CallSite // sink evaluation: the call site the assertion is attached to
+	curName    string
 }
 
 func (fr *Frame) envAt(st *State) *Env {
@@ -763,6 +763,19 @@ func (e *Env) call(x *SExpr) Term {
 		T, _ := e.resolveType(x.Args[1].Str)
 		fe.pre.decl("(declare-fun typetag (Int) Int)")
 		return boolT(fmt.Sprintf("(and (not (= %s 0)) (= (typetag %s) %d))", a.S, a.S, fe.sorts.Tag(T)))
+	case "as":
+		// as(x, "*pkg.Type"): the pointer held by interface value x, read at that type (meaningful where typeis(x, T) holds;
+		// pointer-shaped dynamic values are represented by the pointer itself)
+		need(2)
+		a := e.eval(x.Args[0])
+		if x.Args[1].Op != "str" {
+			e.fail("as needs a type name string")
+		}
+		T, _ := e.resolveType(x.Args[1].Str)
+		if T == nil || !isRefLike(T) {
+			e.fail("as needs a pointer-like type, got %s", x.Args[1].Str)
+		}
+		return Term{a.S, SInt, T}
 	case "matches":
 		// matches(s, "regex literal"): literal regular expression membership (unanchored, Go semantics)
 		need(2)
